@@ -29,3 +29,7 @@ pub use node::{KnownNode, Node, NodeAddr, NodeRef};
 pub(crate) mod control_connection;
 
 pub mod metadata;
+
+#[cfg(scylla_verif)]
+#[allow(missing_docs)]
+pub use node::verif_hooks as verif_node;
